@@ -140,7 +140,7 @@ class Oracle:
         for q in dict.fromkeys(qs):
             w, a = q.split(), self.cache[q]
             if w[0] == "hl":
-                v = "none" if a == "none" else (a.split(" ", 1)[1] if " " in a else "=")
+                v = "none" if a in ("none", "hang", "crash") else (a.split(" ", 1)[1] if " " in a else "=")
                 out.append("hl:%s:%s" % (w[1], v))
             elif w[0] == "re":
                 out.append("re:%s:%s:%s" % ("1" if w[2] == "31" else "0", w[1], a))
